@@ -198,7 +198,8 @@ def real_mol_line(mol, pico_check):
     f._changed = None
     try:
         f.fix_structure()
-        fixcv = ' '.join(map(str, f.check_valence()))
+        fixcv = ' '.join(map(str, f.check_valence())) + ' ; ' + ' '.join('-1' if a._implicit_hydrogens is None else str(a._implicit_hydrogens) for a in f._atoms.values())
+        fixcv = fixcv.strip()
     except KeyError:
         fixcv = 'E'
     g = mol.copy()
@@ -333,11 +334,17 @@ def make_mixed(rng, mol, p=0.45):
         h = a._implicit_hydrogens
         if h and rng.random() < p:
             todo.append((n, rng.randint(1, h)))
+    touched = set()
     for n, k in todo:
         for _ in range(k):
             x = m.add_atom('H')
             m.add_bond(n, x, 1)
+            touched.update((n, x))
+    _TOUCHED[id(m)] = touched
     return m
+
+
+_TOUCHED = {}
 
 
 HOP_HANDMADE = ['[H]NC', 'C([H])C(=O)O', '[H]C([H])([H])[H]', '[2H]C([H])O', '[H][H]', '[H]O[H]', '[H]P([H])(=O)O', '[H][N+]([H])([H])C',
@@ -397,6 +404,21 @@ def hop_stream(ctx):
     mols = hop_molecules(ctx)
     lines = [wire.mol_to_line(m) for _, m in mols]
     after = []   # molecules produced by the real operations, fed to the `mol` stream afterwards
+    # atoms touched by add_atom/add_bond: the mark the library recalculated itself (fix_structure over `_changed`) = model calc_implicit
+    built = [(name, m, _TOUCHED[id(m)]) for name, m in mols if id(m) in _TOUCHED and _TOUCHED[id(m)]]
+    resp = core.run_driver('C04', ['mol ' + wire.mol_to_line(m) for _, m, _ in built])
+    for (name, m, touched), line in zip(built, resp):
+        model = parse_mol_line(line).get('calc', '').split()
+        ids = list(m._atoms)
+        ctx.count(('api-build', wire.mol_to_line(m)))
+        ctx.dist('hops/api-build')
+        bad = [(n, m._atoms[n]._implicit_hydrogens, model[i] if i < len(model) else '?') for i, n in enumerate(ids) if n in touched
+               and (i >= len(model) or ('-1' if m._atoms[n]._implicit_hydrogens is None else str(m._atoms[n]._implicit_hydrogens)) != model[i])]
+        if bad:
+            ctx.cov['disagreements_checked'] += 1
+            ctx.c04_bad_mols.append({'kind': 'marks', 'name': name, 'wire': wire.mol_to_ints(m)})
+            if sum(1 for x in ctx.broken if x.name.startswith('hops/api-build')) < 4:
+                ctx.broke('correspondence', 'hops/api-build/add_atom+add_bond', f'{name}: (atom, stored mark, model calc_implicit) {bad[:4]}')
     for op in ('implicify', 'explicify'):
         resp = core.run_driver('C04', [f'{op} {l}' for l in lines])
         for (name, m), wl, line in zip(mols, lines, resp):
@@ -810,6 +832,20 @@ def hop_oracle(mol, op):
     return out
 
 
+def marks_oracle(mol):
+    """a molecule as the public API left it: every stored count of a localised atom must be one its element tables accept"""
+    for n, a in mol._atoms.items():
+        bonds = [(b.order, mol._atoms[k].atomic_number) for k, b in mol._bonds[n].items()]
+        h = a._implicit_hydrogens
+        if h is None or a.atomic_number == 1 or any(o == 4 for o, _ in bonds):
+            continue
+        _, allowed = spec_h(a.atomic_number, a.charge, a.is_radical, bonds)
+        if h not in allowed:
+            return [('C04/stored-count-not-in-tables', f'atom {n} ({a.atomic_symbol}, q={a.charge}) carries implicit_hydrogens={h} with bonds {bonds}; '
+                     f'the element tables allow {sorted(allowed)}')]
+    return []
+
+
 def _exact_atomic_mass(a):
     d = lambda x: Fraction(repr(x))
     mass = a.isotopes_masses
@@ -881,6 +917,9 @@ def search(ctx):
             m, _ = wire.ints_to_mol(c['wire'], calc=True)
             if c['kind'] == 'hop':
                 report(hop_oracle(m, c['op']), c)
+                continue
+            if c['kind'] == 'marks':
+                report(marks_oracle(m), c)
                 continue
             report(mol_oracle(m), c)
         except Exception as e:
@@ -967,6 +1006,9 @@ def probe(inp):
     elif kind == 'hop':
         m, _ = wire.ints_to_mol(inp['wire'], calc=True)
         res = hop_oracle(m, inp['op'])
+    elif kind == 'marks':
+        m, _ = wire.ints_to_mol(inp['wire'], calc=True)
+        res = marks_oracle(m)
     elif kind == 'smiles':
         res = rdkit_formula_oracle(inp['smiles'])
     else:
